@@ -9,7 +9,7 @@ PRIM_INDEX = {'bool': 0, 'char': 1, 'str': 2, 'u8': 3, 'u16': 4, 'u32': 5, 'u64'
               'i8': 9, 'i16': 10, 'i32': 11, 'i64': 12, 'i128': 13, 'i256': 14}
 
 
-def args_for(unit, failure):
+def args_for(unit, failure, tier='quick'):
     item = ((failure.get('where') or {}).get('origin') or {}).get('item', '')
     if unit == 'U-REACH':
         return ['c08-reach']
@@ -25,12 +25,12 @@ def args_for(unit, failure):
         return ['c13-primnames']
     m = re.match(r'kani:primex_([a-z0-9]+)', unit)
     if m:
-        return ['c12-primex', '300', str(PRIM_INDEX[m.group(1)])]
+        return ['c12-primex', '20000' if tier == 'thorough' else '3000', str(PRIM_INDEX[m.group(1)])]
     return None
 
 
 def search(tool, pid, unit, failure, tier, seed):
-    a = args_for(unit, failure)
+    a = args_for(unit, failure, tier)
     if a is None:
         return {'found': False, 'tried': ['no concrete search implemented for unit %s' % unit]}
     try:
